@@ -262,16 +262,6 @@ def enumerate_paths(text, n, vars, goals=None, max_paths=2000, use_execute=False
 # samplers
 # ------------------------------------------------------------------------------------------------
 
-def _repaired_truncnormal_sample(self, state):
-    """TruncNormal.sample with the bounds standardised as scipy.stats.truncnorm requires"""
-    from scipy.stats import truncnorm
-    mu = float(self.mu.subs(state).simplify())
-    sigma = math.sqrt(float(self.sigma2.subs(state).simplify()))
-    a = float(self.a.subs(state).simplify())
-    b = float(self.b.subs(state).simplify())
-    return truncnorm.rvs((a - mu) / sigma, (b - mu) / sigma, loc=mu, scale=sigma)
-
-
 def _normalise_call(rec):
     import scipy.stats as st
     name = rec["fn"]
@@ -317,79 +307,55 @@ def _support_bounds(dist, state):
     return pts, ivs
 
 
-def sampler_probe(family, params, state=None, nsamples=2000, seed=20240925, repair=False):
+def sampler_probe(family, params, state=None, nsamples=2000, seed=20240925):
     """(1) the arguments `sample` passes to the random source, captured by a scripted source;
        (2) with the real scipy and a fixed numpy seed: is every sample inside the declared support?"""
     from symengine.lib.symengine_wrapper import Symbol
     from program.distribution import distribution_factory
-    import program.distribution.truncated_normal as tn
     st = {Symbol(k): float(Fr(v)) for k, v in (state or {}).items()}
-    saved_sample = tn.TruncNormal.sample
-    if repair:
-        tn.TruncNormal.sample = _repaired_truncnormal_sample
-    try:
-        dist = distribution_factory(family, [str(p) for p in params])
-        out = {"family": family, "params": [str(p) for p in params], "calls": [], "post": None}
-        results = []
-        for v in (0.25, 0.75):
-            rec = []
-            with Patches(script=None, recorder=rec, rvs_value=v):
-                r = dist.sample(dict(st))
-            results.append(float(r))
-            out["calls"].append([_normalise_call(c) for c in rec])
-        # Polar's own post-processing of the returned number (Beta multiplies by its scale)
-        if out["calls"][0] and not out["calls"][0][0]["fn"].startswith("random."):
-            r1, r2 = results
-            out["post"] = {"at_1/4": fr_str(Fr(r1)), "at_3/4": fr_str(Fr(r2))}
-        else:
-            out["post"] = {"returned": [fr_str(Fr(x)) for x in results]}
-        # support membership with the real generators
-        import numpy as np
-        np.random.seed(seed)
-        import random
-        random.seed(seed)
-        pts, ivs = _support_bounds(dist, st)
-        outside = []
-        lo_seen, hi_seen = float("inf"), float("-inf")
-        for _ in range(nsamples):
-            x = float(dist.sample(dict(st)))
-            lo_seen, hi_seen = min(lo_seen, x), max(hi_seen, x)
-            ok = any(x == p for p in pts) or any(lo <= x <= hi for lo, hi in ivs)
-            if not ok and len(outside) < 3:
-                outside.append(x)
-            if not ok:
-                out["n_outside"] = out.get("n_outside", 0) + 1
-        out.setdefault("n_outside", 0)
-        out["support"] = {"points": pts, "intervals": [[repr(a), repr(b)] for a, b in ivs],
-                          "min_seen": lo_seen, "max_seen": hi_seen, "first_outside": outside,
-                          "nsamples": nsamples, "seed": seed}
-        return out
-    finally:
-        tn.TruncNormal.sample = saved_sample
+    dist = distribution_factory(family, [str(p) for p in params])
+    out = {"family": family, "params": [str(p) for p in params], "calls": [], "post": None}
+    results = []
+    for v in (0.25, 0.75):
+        rec = []
+        with Patches(script=None, recorder=rec, rvs_value=v):
+            r = dist.sample(dict(st))
+        results.append(float(r))
+        out["calls"].append([_normalise_call(c) for c in rec])
+    # Polar's own post-processing of the returned number (Beta multiplies by its scale)
+    if out["calls"][0] and not out["calls"][0][0]["fn"].startswith("random."):
+        r1, r2 = results
+        out["post"] = {"at_1/4": fr_str(Fr(r1)), "at_3/4": fr_str(Fr(r2))}
+    else:
+        out["post"] = {"returned": [fr_str(Fr(x)) for x in results]}
+    # support membership with the real generators
+    import numpy as np
+    np.random.seed(seed)
+    import random
+    random.seed(seed)
+    pts, ivs = _support_bounds(dist, st)
+    outside = []
+    lo_seen, hi_seen = float("inf"), float("-inf")
+    for _ in range(nsamples):
+        x = float(dist.sample(dict(st)))
+        lo_seen, hi_seen = min(lo_seen, x), max(hi_seen, x)
+        ok = any(x == p for p in pts) or any(lo <= x <= hi for lo, hi in ivs)
+        if not ok and len(outside) < 3:
+            outside.append(x)
+        if not ok:
+            out["n_outside"] = out.get("n_outside", 0) + 1
+    out.setdefault("n_outside", 0)
+    out["support"] = {"points": pts, "intervals": [[repr(a), repr(b)] for a, b in ivs],
+                      "min_seen": lo_seen, "max_seen": hi_seen, "first_outside": outside,
+                      "nsamples": nsamples, "seed": seed}
+    return out
 
 
 # ------------------------------------------------------------------------------------------------
 # the command-line action
 # ------------------------------------------------------------------------------------------------
 
-def _repaired_goal_to_float(self, goal, state):
-    """SimulationResult._goal_to_float deciding a tail-bound indicator numerically (both sides as doubles)
-    instead of through symengine's Integer-vs-RealDouble relational"""
-    from symengine.lib.symengine_wrapper import Piecewise, LessThan, StrictLessThan, sympify
-    g = sympify(goal)
-    if isinstance(g, Piecewise) and isinstance(g.args[1], (LessThan, StrictLessThan)):
-        a, b = [t.subs(state) for t in g.args[1].args]
-        if not a.is_Number or not b.is_Number:
-            return float("nan")
-        holds = float(a) <= float(b) if isinstance(g.args[1], LessThan) else float(a) < float(b)
-        return 1.0 if holds else 0.0
-    result = g.subs(state)
-    if not result.is_Number:
-        return float("nan")
-    return float(result)
-
-
-def cli_simulation(text, goal_texts, n, samples, repair=False):
+def cli_simulation(text, goal_texts, n, samples):
     """`SimulationAction` as the CLI runs it (parse_file, GoalParser, Simulator(simulation_iter), number_samples),
     every random source answering with its first option; returns the printed `label = value` lines."""
     import contextlib
@@ -399,10 +365,6 @@ def cli_simulation(text, goal_texts, n, samples, repair=False):
     import tempfile
     from argparse import Namespace
     from cli.actions.simulation_action import SimulationAction
-    from simulation.simulation_result import SimulationResult
-    saved_g2f = SimulationResult._goal_to_float
-    if repair:
-        SimulationResult._goal_to_float = _repaired_goal_to_float
     fd, path = tempfile.mkstemp(suffix=".prob", prefix="c12_")
     try:
         with os.fdopen(fd, "w") as fh:
@@ -413,7 +375,6 @@ def cli_simulation(text, goal_texts, n, samples, repair=False):
         with Patches(script=script), contextlib.redirect_stdout(buf):
             SimulationAction(ns)(path)
     finally:
-        SimulationResult._goal_to_float = saved_g2f
         try:
             os.unlink(path)
         except OSError:
